@@ -698,7 +698,11 @@ fn u32_consistent_deviations(
     dump: bool,
 ) {
     let name = op_name(x.opcode);
-    if !matches!(name, "U32SUB" | "U32SPLIT" | "U32MUL" | "U32MADD" | "U32DIV") {
+    if !matches!(name, "U32SUB" | "U32SPLIT" | "U32MUL" | "U32MADD" | "U32DIV" | "U32ADD" | "U32ADD3" | "EXPACC") {
+        return;
+    }
+    if name == "EXPACC" {
+        expacc_consistent_deviations(ctx, case, air, mf, pv, x, local, cj, dump);
         return;
     }
     const M32: u64 = 0xffff_ffff;
@@ -723,6 +727,15 @@ fn u32_consistent_deviations(
                 // sign, which not even an honest row with a borrow satisfies)
                 let borrow = (s(0) + Felt::new(c) - s(1)) * inv32;
                 alts.push(("wrong_difference_with_a_non_binary_borrow", borrow, Felt::new(c), [c & 0xffff, c >> 16, hon[2], hon[3]], vec![hon[4]]));
+            }
+        }
+        // u32_ops.md: s0' = h2 and "value in h3 is set to 0": the unused limb set to a 16-bit value t and the
+        // carry reported as h2 + 2^16 t (the sum s1' and the limbs h0..h2 stay honest)
+        "U32ADD" | "U32ADD3" if is_u32(s(0)) && is_u32(s(1)) && (name == "U32ADD" || is_u32(s(2))) => {
+            for t in [1u64, 2, 0xffff] {
+                if t != hon[3] {
+                    alts.push(("wrong_carry_with_the_unused_limb_h3_set", Felt::new(hon[2] + (t << 16)), x.next[S0 + 1], [hon[0], hon[1], hon[2], t], vec![hon[4]]));
+                }
             }
         }
         "U32SPLIT" | "U32MUL" | "U32MADD" => {
@@ -835,6 +848,54 @@ fn u32_consistent_deviations(
             mf.current_mut().copy_from_slice(&save_cur);
             af.next_mut()[AUX_B_RANGE] = save_b;
         }
+    }
+}
+
+/// EXPACC (field_ops.md): the bit s0' must be binary, exp' = exp^2, h0 = (exp - 1) * s0' + 1, acc' = acc * h0,
+/// b = 2 b' + s0'. A non-binary bit with everything that depends on it recomputed (val, acc', b') is a wrong
+/// round of the exponentiation that only the binary check can reject.
+#[allow(clippy::too_many_arguments)]
+fn expacc_consistent_deviations(ctx: &Ctx, case: &ProgCase, air: &air::ProcessorAir, mf: &mut EvaluationFrame<Felt>, pv: &[Felt], x: &RowCtx, local: &mut Tally, cj: &dyn Fn() -> Value, dump: bool) {
+    let nmain = air.context().num_main_transition_constraints();
+    let mut me = vec![Felt::ZERO; nmain];
+    let save_next: Vec<Felt> = mf.next().to_vec();
+    let save_cur: Vec<Felt> = mf.current().to_vec();
+    let (exp, acc, b) = (x.cur[S0 + 1], x.cur[S0 + 2], x.cur[S0 + 3]);
+    let half = Felt::new(2).inv();
+    for bit in [2u64, 3, P - 1, 1 << 32] {
+        let bit = Felt::new(bit);
+        let val = (exp - Felt::ONE) * bit + Felt::ONE;
+        mf.next_mut()[S0] = bit;
+        mf.next_mut()[S0 + 2] = acc * val;
+        mf.next_mut()[S0 + 3] = (b - bit) * half;
+        mf.current_mut()[HELPER0] = val;
+        me.iter_mut().for_each(|v| *v = Felt::ZERO);
+        air.evaluate_transition(mf, pv, &mut me);
+        local.note_fired(&me);
+        let rejected = me.iter().any(|v| *v != Felt::ZERO);
+        local.frames += 1;
+        let class = "non_binary_bit_with_val_acc_and_b_recomputed";
+        let e = local.per.entry(("EXPACC (bit, val, acc', b' forged consistently)".to_string(), class.to_string())).or_insert([0; 4]);
+        e[0] += 1;
+        if rejected {
+            e[1] += 1;
+            let by = local.u32_rejected_by.entry(format!("EXPACC {class}")).or_default();
+            by.extend(me.iter().enumerate().filter(|(_, v)| **v != Felt::ZERO).map(|(k, _)| k));
+        } else {
+            e[3] += 1;
+            if !dump {
+                ctx.fail(
+                    json!({"kind": "consistent_deviation_not_rejected", "op": "EXPACC", "cell": class}),
+                    format!(
+                        "{} row {}: EXPACC on (bit, exp, acc, b) = ({}, {}, {}, {}) with the next bit forged to {} and val, acc', b' recomputed from it: no transition constraint fires",
+                        case.name, x.row, x.cur[S0].as_int(), exp.as_int(), acc.as_int(), b.as_int(), bit.as_int()
+                    ),
+                    json!({"prog": cj(), "row": x.row, "cell": class, "model": "expacc_consistent"}),
+                );
+            }
+        }
+        mf.next_mut().copy_from_slice(&save_next);
+        mf.current_mut().copy_from_slice(&save_cur);
     }
 }
 
